@@ -24,7 +24,7 @@ META = {
              "sides, up to DC and Nyquist); every offset is one evaluation; all are non-trivial (the response of a wrong window "
              "would exceed the threshold) and distinct"),
     "exhaustive": True,
-    "bounds": {"quick": "P in {40,60,...,200}; L in 64..256 step 8 (+ L=1500 for P in {40,120,200}); f0 in {L/4+0.3, m+2, L/2-L/16} bins; phases {0.7,2}; offsets m..edge step 1/4 bin",
+    "bounds": {"quick": "P in {40,60,...,200}; L in 64..256 step 8 and odd {65,129,251} (+ L=1500 for P in {40,120,200}); f0 in {L/4+0.3, m+2, L/2-L/16} bins; phases {0.7,2}; offsets m..edge step 1/4 bin",
                "thorough": "L in 64..256 every integer + {512,1024,4096}"},
     "assumptions": ["float64 recurrence keeps > 200 dB of dynamic range for L <= 4096 (measured margin reported as min_margin_dB)",
                     "two-line threshold P-7.5 dB = P-1 dB per line + 6.02 dB coherent sum + peak perturbation"],
@@ -33,7 +33,7 @@ PS = tuple(range(40, 201, 20))
 
 
 def shards(tier, seed):
-    Ls = list(range(64, 257, 8)) + [1500] if tier == "quick" else list(range(64, 257)) + [512, 1024, 4096]
+    Ls = list(range(64, 257, 8)) + [65, 129, 251, 1500] if tier == "quick" else list(range(64, 257)) + [512, 1024, 4096]
     Ls.sort(reverse=True)
     packed, cur, w = [], [], 0
     for L in Ls:
